@@ -15,11 +15,14 @@ run_demo() { ( cd "$scratch" && PYTHONPATH="$scratch" MPLBACKEND=Agg PYTHONDONTW
 sed "s#$wt#$scratch#g" "$demo" > "$scratch/.demo.py"
 clean_rc=$(run_demo clean)
 git apply --whitespace=nowarn "$src/patch.diff" || { echo "$prop-$m: PATCH DOES NOT APPLY"; rm -rf "$scratch"; exit 3; }
-tests=$( cd "$scratch" && PYTHONPATH="$scratch" MPLBACKEND=Agg PYTHONDONTWRITEBYTECODE=1 timeout 1800 /venv/bin/python -m pytest -q -p no:cacheprovider --timeout=900 localcider/tests 2>&1 | tail -1 )
-failed_set=$( cd "$scratch" && PYTHONPATH="$scratch" MPLBACKEND=Agg PYTHONDONTWRITEBYTECODE=1 true )
+( cd "$scratch" && PYTHONPATH="$scratch" MPLBACKEND=Agg PYTHONDONTWRITEBYTECODE=1 timeout 1800 /venv/bin/python -m pytest -q -rf -p no:cacheprovider --timeout=900 localcider/tests > "$scratch/.pytest.log" 2>&1 )
+tests=$( tail -1 "$scratch/.pytest.log" )
+failed_set=$( grep '^FAILED' "$scratch/.pytest.log" | sed 's/ - .*//' | sed 's/.*:://' | sort | tr '\n' ' ' )
+expected_failed="test_general_coverage test_phaseDiagramDefinitions test_save_multiple_phasePlot test_save_multiple_phasePlot2 test_save_multiple_uverskyPlot test_save_multiple_uverskyPlot2 test_save_phaseDiagramPlot test_save_single_phasePlot test_save_single_uverskyPlot test_save_uverskyPlot "
+[ "$failed_set" = "$expected_failed" ] || tests="$tests [FAILED SET DIFFERS: $failed_set]"
 mut_rc=$(run_demo mutant)
 ok=no
-if [ "$clean_rc" = 0 ] && [ "$mut_rc" != 0 ] && echo "$tests" | grep -q "10 failed, 42 passed"; then ok=yes; fi
+if [ "$clean_rc" = 0 ] && [ "$mut_rc" != 0 ] && echo "$tests" | grep -q "10 failed, 42 passed" && ! echo "$tests" | grep -q "DIFFERS"; then ok=yes; fi
 echo "$prop-$m: demo_clean_rc=$clean_rc demo_mutant_rc=$mut_rc tests='$tests' confirmed=$ok"
 if [ "$ok" = yes ]; then
   dst="/verif/seeded/$prop-$m"; mkdir -p "$dst"
